@@ -246,6 +246,7 @@ def length_source(fx, s, atom):
 def check(ctx):
     fx = ctx.fx
     check_poll_protocol(ctx)
+    check_reported_lengths(ctx)
     check_wake_sites(ctx)
 
 
@@ -392,6 +393,30 @@ def check_poll_protocol(ctx):
         delegation.thin(ctx, "R04.1", f"{path} as {R.T_CONS}::register_stream_waker", "register_stream_waker", "poll_next registers its waker with the streams manager under its own id")
         delegation.thin(ctx, "R04.1", f"{path} as {R.T_CONS}::keep_stream_running", "keep_stream_running", "poll_next consults the manager's keep-running flag of its own id")
     ctx.floor("R04.2", 4); ctx.floor("R04.1", 4)
+
+
+def check_reported_lengths(ctx):
+    """R04.8 the length the rings report on acceptance is the reservation's length-before plus one: the wake decisions of the channels (guards like `len_after <= MAX_STREAMS`,
+    targets like `len_after - 1`) are judged by R04.5 against the true queue length; a ring that reports length+2 (or the length before) shifts every one of them"""
+    fx = ctx.fx
+    n = 0
+    for adt in (R.AM, R.FSM):
+        for fn in ("publish_movable", "publish"):
+            for k in [x for x in fx.by_key if x.startswith(adt + " as ") and x.endswith("::" + fn)]:
+                body = Body(fx.fn(k)); dg = D.Dag(body)
+                exprs = []
+                for (b, c) in body.calls:
+                    if c.get("fname") == "new" and "NonZero" in (c.get("f") or "") and c["args"]: exprs.append((b, dg.expr(c["args"][0])))
+                    if c.get("f") in ("std::ops::FnOnce::call_once", "std::ops::Fn::call", "std::ops::FnMut::call_mut") and len(c["args"]) > 1 and "report_len" in show(dg.expr(c["args"][0])):
+                        a_ = strip_casts(dg.expr(c["args"][1]))
+                        exprs.append((b, a_[1][0] if a_[0] == "tuple" and a_[1] else a_))
+                for (b, e) in exprs:
+                    e = strip_casts(e)
+                    while e[0] == "tuple" and len(e[1]) == 1: e = strip_casts(e[1][0])
+                    ok = e[0] == "bin" and e[1].rstrip("!~") == "Add" and ((strip_casts(e[3]) == ("const", 1) and mentions(e[2], "leak_slot_internal")) or (strip_casts(e[2]) == ("const", 1) and mentions(e[3], "leak_slot_internal")))
+                    n += 1
+                    ctx.ob("R04.8", f"{k}|reports-length-before-plus-one", ok, body.loc(b), f"reports `{show(e)[:90]}`; required: the reservation's length-before + 1")
+    ctx.ob("R04.8", "reported-lengths|instances", n >= 4, "", f"{n} reported lengths", nontrivial=False)
 
 
 def check_wake_sites(ctx):
